@@ -62,7 +62,10 @@ def path_atoms(f, path, decs):
                     if peel_c(x)[0] != 'phi':
                         a = (a[0], canon(x)) + tuple(a[2:])
         ptr += 1
-        out.append((b, untry(a)))
+        a = untry(a)
+        out.append((b, a))
+        for dv in f.derived_atoms(a):
+            out.append((b, dv))
     return out
 
 
@@ -869,6 +872,41 @@ def filter_facts(f, atoms):
                 b2 = atom_of(body, ('eq', 1))
                 if b2 is not None:
                     out.append(b2)
+    return out
+
+
+def iter_filter_facts(f, item_tree):
+    """facts implied for an iteration item drawn from `src.filter(pred)`: pred(&item) holds (closure body with its parameter and
+    captures substituted, as atoms).  `for m in ms.into_iter().filter(|m| stage < m.stages()) { .. }` guards its body exactly like
+    `for m in ms { if stage < m.stages() { .. } }`."""
+    out = []
+    t = peel(item_tree)
+    nxt = [x for x in walk(t) if is_next(x) and x[2]]
+    for x in nxt[:1]:
+        for y in walk(x[2][0]):
+            if y[0] == 'call' and y[1] == 'std::iter::Iterator::filter' and len(y[2]) == 2:
+                item = ('field', ('as', x, 'Some'), '0', 'std::option::Option')
+                body = f._beta(y[2][1], [('ref', item)], 80)
+                if body is not None:
+                    a = atom_of(body, ('eq', 1))
+                    if a is not None:
+                        out.append(a)
+            if y[0] == 'call' and y[1] == 'std::iter::Iterator::filter_map' and len(y[2]) == 2:
+                # an item exists only where the closure returned Some: the decisions common to all its Some-returning paths hold
+                # (atoms in the closure's own frame: its parameter is the source element)
+                cl = peel(y[2][1])
+                g = f.program.fns.get(cl[1][len('closure:'):]) if cl[0] == 'agg' and str(cl[1]).startswith('closure:') else None
+                common = None
+                for path, outcome, decs in (g.enum_paths() if g else []):
+                    if outcome != 'return':
+                        continue
+                    r = path_ret_resolved(g, path)
+                    r = peel(r) if r is not None else None
+                    if r is not None and r[0] == 'agg' and str(r[1]).endswith('Option::None'):
+                        continue
+                    atoms = [a for _, a in path_atoms(g, path, decs)]
+                    common = atoms if common is None else [a for a in common if a in atoms]
+                out.extend(common or [])
     return out
 
 
